@@ -384,11 +384,11 @@ def node_at(root, path):
 
 
 GETTERS = {
-    0: ["value", "weight", "notional_value", "price", "prices", "values", "fees", "flows", "notional_values"],
+    0: ["value", "weight", "notional_value", "price", "prices", "values", "fees", "flows", "notional_values", "cash"],
     4: ["positions", "outlays"],
     1: ["price", "bidoffer", "bidoffer_paid", "prices"],
     2: ["values", "positions", "outlays", "notional_values"],
-    3: ["capital", "cash"],
+    3: ["capital"],
 }
 
 
